@@ -183,8 +183,9 @@ def peer_open_passive(lat=1000, cid=300, peer_isn=2000, wnd=1 << 20, establish=T
 # ------------------------------------------------------------------ D-peer families
 LINKS = {148: 100, 300: 252, 576: 528, 1500: 528}   # link MTU -> initial MSS (IPv4)
 
-def rounds_acks(rng, n_rounds, lat, mss, allow_silence=True, allow_zero=True):
-    """A random ACK/window history for a sending endpoint."""
+def rounds_acks(rng, n_rounds, lat, mss, allow_silence=True, allow_zero=True, duplex=False):
+    """A random ACK/window history for a sending endpoint.  duplex: the peer also sends data of its own, and some
+    acknowledgements travel on its data packets - new ones and repeats of packets already taken in."""
     st = []
     wnds = [1 << 20, 1 << 20, 5 * mss, 2 * mss, mss, mss - 1, 1]
     if allow_zero:
@@ -194,7 +195,14 @@ def rounds_acks(rng, n_rounds, lat, mss, allow_silence=True, allow_zero=True):
         st.append(sleep(dt))
         k = rng.random()
         w = rng.choice(wnds)
-        if k < 0.45:
+        if duplex and rng.random() < 0.4:
+            # duplex = [number of data packets the peer has sent so far]: a repeat names one of them
+            if rng.random() < 0.5:
+                st.append(peer("data", len=rng.choice([1, 50, mss])))
+                duplex[0] += 1
+            else:
+                st.append(peer("data", len=50, again=rng.randrange(0, duplex[0])))
+        elif k < 0.45:
             st.append(peer("ack", wnd=w))
         elif k < 0.55:
             st.append(peer("ack", wnd=w, n=rng.choice([2, 3, 4]), nosack=True))
@@ -225,6 +233,9 @@ def peer_send(seed, idx, fam="peer_send"):
     st = peer_open_active(lat, peer_isn=rng.choice([1000, 65530]), wnd=pw) if active else \
         peer_open_passive(lat, cid=rng.choice([300, 65535]), peer_isn=rng.choice([2000, 65534]), wnd=pw)
     st.append({"op": "read", "ep": "a"})
+    duplex = [2] if rng.random() < 0.3 else None
+    if duplex:
+        st += [peer("data", len=50), peer("data", len=50), sleep(lat + 10)]
     # holes: the network loses some first (and a few second) transmissions of data segments
     for j in sorted(rng.sample(range(0, 40), rng.choice([0, 1, 3, 6]))):
         st.append(rule(**{"from": "A", "type": "data", "seq_idx": j, "nth": 1, "act": "drop"}))
@@ -233,7 +244,7 @@ def peer_send(seed, idx, fam="peer_send"):
     for _ in range(rng.choice([1, 2, 4])):
         n = rng.choice([1, 10, mss - 1, mss, mss + 1, 3 * mss, 10 * mss, 40 * mss])
         st.append({"op": "write", "ep": "a", "n": n, "chunk": rng.choice([1, 50, mss, 65536]) if n <= 3 * mss else 65536})
-        st += rounds_acks(rng, rng.choice([2, 5, 10]), lat, mss)
+        st += rounds_acks(rng, rng.choice([2, 5, 10]), lat, mss, duplex=duplex)
     # drain: let everything be acknowledged if possible
     for _ in range(12):
         st += [sleep(lat + 10), peer("ack", wnd=1 << 20)]
@@ -249,7 +260,7 @@ def peer_send(seed, idx, fam="peer_send"):
     st += [sleep(4 * SEC), {"op": "drop", "ep": "a"}, sleep(14 * SEC)]
     return peer_script(f"{fam}/{idx}", seed * 31 + idx, st, opts=opts, lat=lat,
                        rand=[rng.randrange(65536), rng.choice([1, 65534, rng.randrange(65536)]), rng.randrange(65536)],
-                       info={"mss": mss, "nagle": nagle, "end": end, "tx": [tx_init, tx_max]})
+                       info={"mss": mss, "nagle": nagle, "end": end, "tx": [tx_init, tx_max], "duplex": bool(duplex)})
 
 def peer_recv(seed, idx, fam="peer_recv"):
     """The library receives; the scripted peer sends data in every order and timing."""
@@ -815,3 +826,30 @@ def evict_script(seed, idx, fam="evict"):
           sleep(1 * SEC), {"op": "drop", "ep": "x"}, {"op": "abandon", "ep": "y"}, {"op": "drop", "ep": "y"}, sleep(15 * SEC)]
     return peer_script(f"{fam}/{idx}", seed * 47 + idx, st, opts=dict(inactivity_ms=3000), lat=1000, rand=[10, 100, 200, 300],
                        info={"D": D})
+
+# ------------------------------------------------------------------ zero window, lost re-opening ACK (C02)
+def zwin_script(seed, idx, fam="zwin"):
+    """The receiver's buffer fills (reader stopped), the sender still has data - cut into segments or not -, the
+    reader resumes and the ACK that re-opens the window is lost a bounded number of times."""
+    rng = random.Random(seed * 1000003 + idx * 37 + 13)
+    link = rng.choice([576, 576, 1500, 300])
+    mss = LINKS[link]
+    rx = rng.choice([4 * mss, 4 * mss, 8 * mss, 2112])
+    n = rx + rng.choice([1, mss, 3 * mss, 10 * mss, rx])
+    lat = rng.choice([1000, 10000])
+    gen = isn_pair(rng)
+    st = connect_steps()
+    st += [rule(**{"from": "B", "type": "state", "wnd_reopen": True, "act": "drop", "times": rng.choice([1, 1, 2])}),
+           {"op": "read", "ep": "a"},
+           {"op": "write", "ep": "a", "n": n, "chunk": rng.choice([65536, mss, 100])},
+           sleep(rng.choice([300000, 1 * SEC, 3 * SEC])),
+           {"op": "read", "ep": "b", "chunk": rng.choice([65536, 1000])},
+           {"op": "flush", "ep": "a"},
+           {"op": "wait", "what": "flush", "timeout_us": 60 * SEC},
+           {"op": "shutdown", "ep": "a"},
+           {"op": "wait", "what": "read", "timeout_us": 30 * SEC},
+           {"op": "drop", "ep": "a"}, {"op": "drop", "ep": "b"}, sleep(15 * SEC)]
+    socks = [sock("A", A_ADDR, rand=[gen(), gen()], link_mtu=link, nagle=rng.random() < 0.7),
+             sock("B", B_ADDR, rand=[gen(), gen()], link_mtu=link, rx_buf=rx)]
+    return script(f"{fam}/{idx}", seed * 61 + idx, socks, st, net={"latency_us": lat},
+                  info={"family": fam, "class": "fair-lossy", "rx": rx, "n": n, "mss": mss})
